@@ -31,7 +31,7 @@ def sh(cmd, cwd=None, env=None, timeout=3600):
 
 
 def parse_demo(txt):
-    m = re.search(r"copy (?:the file |demo\.rs |it )?(?:to|as) +`?([A-Za-z0-9_./-]+\.rs)`?", txt)
+    m = re.search(r"[Cc]opy (?:the file |\S*demo\.rs |it )?(?:to|as) +`?([A-Za-z0-9_./-]+\.rs)`?", txt)
     dest = m.group(1) if m else None
     cmd = None
     for line in txt.splitlines():
